@@ -176,7 +176,7 @@ class PropertyRun:
             for t, c in crashes:
                 sys.stderr.write(f"CHECKER CRASH in task {t}:\n{c}\n")
             exit_code = 3
-        elif n_ob == 0:
+        elif n_ob == 0 and not undecided:
             sys.stderr.write('CHECKER ERROR: zero obligations generated (vacuous run)\n')
             exit_code = 3
         elif not violations and undecided:
